@@ -136,3 +136,10 @@ Proof. intros H held. unfold guard_drop_removes, guard_drop_removes_form. rewrit
 
 Lemma guard_drop_try_lock_refuted : guard_drop_removes_form false true = false.
 Proof. reflexivity. Qed.
+
+(* ---- C20 (registration instant) ---- *)
+Lemma response_matched_here : stun_tsx_registered_before_send = true -> forall first_send_done resp_at, response_matched first_send_done resp_at = true.
+Proof. intros H d r. unfold response_matched, response_matched_form, registered_from_form. rewrite H. apply N.leb_le. apply N.le_0_l. Qed.
+
+Lemma response_during_send_unmatched : forall d r, (r < d)%N -> response_matched_form false d r = false.
+Proof. intros d r H. unfold response_matched_form, registered_from_form. apply N.leb_gt. exact H. Qed.
